@@ -111,7 +111,7 @@ func genShufRel(t *rapid.T, e *shufEnv) *shufRel {
 // honest prover of the library (y must be gamma * a permutation of x).  drop = j: every Theta
 // equation but the j-th holds, whatever x and y are: the Thetas are committed at random, the
 // alphas before link j are solved forwards from the challenge and those after it backwards.
-func forgeSimple(g kyber.Group, G kyber.Point, gamma kyber.Scalar, x, y []kyber.Scalar, drop int, st interface {
+func forgeSimple(g kyber.Group, G kyber.Point, gamma kyber.Scalar, x, y []kyber.Scalar, drop, drop2 int, st interface {
 	XORKeyStream(dst, src []byte)
 }, pc proof.ProverContext) error {
 	k := len(x)
@@ -178,9 +178,31 @@ func forgeSimple(g kyber.Group, G kyber.Point, gamma kyber.Scalar, x, y []kyber.
 		v := g.Scalar().Sub(g.Scalar().Mul(L(i), alpha(i-1)), th[i])
 		al[i] = g.Scalar().Div(v, Rr(i))
 	}
-	for i := n - 1; i > drop; i-- { // backwards: alpha_{i-1} = (th_i + Rr_i alpha_i) / L_i
+	hi := drop
+	if drop2 > drop {
+		hi = drop2
+	}
+	for i := n - 1; i > hi; i-- { // backwards: alpha_{i-1} = (th_i + Rr_i alpha_i) / L_i
 		v := g.Scalar().Add(th[i], g.Scalar().Mul(Rr(i), alpha(i)))
 		al[i-1] = g.Scalar().Div(v, L(i))
+	}
+	if hi > drop {
+		// window of links drop..hi (all over the bases Gamma, G: drop >= k): none of them holds, but
+		// their SUM does - the errors cancel.  alpha_drop .. alpha_{hi-1} are free; all but the first
+		// are random and alpha_drop solves  sum th_i = sum (L_i alpha_{i-1} - Rr_i alpha_i)
+		for j := drop + 1; j < hi; j++ {
+			al[j] = g.Scalar().Pick(st)
+		}
+		al[drop] = g.Scalar().Zero()
+		rest := g.Scalar().Zero() // sum th_i - sum(...) with alpha_drop = 0
+		for i := drop; i <= hi; i++ {
+			rest = g.Scalar().Add(rest, th[i])
+			rest = g.Scalar().Sub(rest, g.Scalar().Mul(L(i), alpha(i-1)))
+			rest = g.Scalar().Add(rest, g.Scalar().Mul(Rr(i), alpha(i)))
+		}
+		// alpha_drop enters with coefficient L_{drop+1} - Rr_drop
+		coef := g.Scalar().Sub(L(drop+1), Rr(drop))
+		al[drop] = g.Scalar().Div(rest, coef)
 	}
 	for i := range al {
 		if al[i] == nil { // drop == 0 leaves nothing forwards, drop == n-1 nothing backwards: all set; defensive
@@ -193,7 +215,7 @@ func forgeSimple(g kyber.Group, G kyber.Point, gamma kyber.Scalar, x, y []kyber.
 // refPairVerify: the harness' own pair-shuffle verifier (Neff 2004, as implemented by the library)
 // with the possibility to skip exactly one check.  skip: "", "bind-R", "bind-S", "bind-both", "eq33",
 // "eq34", "eq35", "simple-link" (with link = index of the skipped Theta equation).
-func refPairVerify(e *shufEnv, xb, yb []kyber.Point, skip string, link int) proof.Verifier {
+func refPairVerify(e *shufEnv, xb, yb []kyber.Point, skip string, link, link2 int) proof.Verifier {
 	g := e.gi.G
 	k := len(e.X)
 	return func(vc proof.VerifierContext) error {
@@ -247,8 +269,22 @@ func refPairVerify(e *shufEnv, xb, yb []kyber.Point, skip string, link int) proo
 			}
 			return s4.Zalpha[i]
 		}
+		if skip == "simple-links-sum" {
+			// the links link..link2 (same bases Gamma, G) are checked on their sum only
+			lhs, rhs := nullPoint(e.gi), nullPoint(e.gi)
+			for i := link; i <= link2; i++ {
+				lhs = g.Point().Add(lhs, g.Point().Sub(g.Point().Mul(alpha(i-1), p1.Gamma), g.Point().Mul(alpha(i), e.G)))
+				rhs = g.Point().Add(rhs, s2.Theta[i])
+			}
+			if !lhs.Equal(rhs) {
+				return fmt.Errorf("simple shuffle: sum of Theta equations %d..%d", link, link2)
+			}
+		}
 		for i := 0; i < n; i++ {
 			if skip == "simple-link" && i == link {
+				continue
+			}
+			if skip == "simple-links-sum" && i >= link && i <= link2 {
 				continue
 			}
 			var A, B kyber.Point
@@ -300,13 +336,19 @@ func c15Forged(t *rapid.T, ev *evProp) {
 		ev.Case(false, "forged: singular or permutation matrix drawn", "shuffle-forged-skipped")
 		return
 	}
-	strategy := rapid.SampledFrom([]string{"bind-both", "bind-R", "bind-S", "eq33", "simple-link", "simple-link"}).Draw(t, "strategy")
-	link := -1
+	strategy := rapid.SampledFrom([]string{"bind-both", "bind-R", "bind-S", "eq33", "simple-link", "simple-link", "simple-links-sum"}).Draw(t, "strategy")
+	link, link2 := -1, -1
 	if strategy == "simple-link" {
 		link = uniformInt(t, 0, 2*k-1, "link")
 	}
+	if strategy == "simple-links-sum" {
+		// a window of at least two of the links k..2k-1 that share the bases (Gamma, G): every link in it
+		// is wrong, their sum is right (an unweighted batch check of those links would accept)
+		link = uniformInt(t, k, 2*k-2, "link")
+		link2 = uniformInt(t, link+1, 2*k-1, "link2")
+	}
 	M, ts, xb, yb := rel.M, rel.ts, rel.xb, rel.yb
-	ctx := fmt.Sprintf("forged pair-shuffle transcript %s relation=%s perm=%v a=%d b=%d strategy=%s link=%d", e.desc, rel.kind, rel.perm, rel.a, rel.b, strategy, link)
+	ctx := fmt.Sprintf("forged pair-shuffle transcript %s relation=%s perm=%v a=%d b=%d strategy=%s link=%d..%d", e.desc, rel.kind, rel.perm, rel.a, rel.b, strategy, link, link2)
 	st := xofStream(genSeed(t, "forger"))
 	mul := func(a, b kyber.Scalar) kyber.Scalar { return g.Scalar().Mul(a, b) }
 	prover := func(pc proof.ProverContext) error {
@@ -404,11 +446,11 @@ func c15Forged(t *rapid.T, ev *evProp) {
 		case "eq33": // honest: s = gamma*r holds by construction
 			copy(x, r)
 			copy(y, s)
-		case "simple-link": // bound to R and S, which are NOT in the shuffle relation
+		case "simple-link", "simple-links-sum": // bound to R and S, which are NOT in the shuffle relation
 			copy(x, r)
 			copy(y, s)
 		}
-		return forgeSimple(g, e.G, gamma, x, y, link, st, pc)
+		return forgeSimple(g, e.G, gamma, x, y, link, link2, st, pc)
 	}
 	var prf []byte
 	var err error
@@ -417,11 +459,11 @@ func c15Forged(t *rapid.T, ev *evProp) {
 	}
 	// self-check of the adversary: skipping exactly the designated check makes the transcript acceptable,
 	// and the complete reference verifier rejects it
-	if err := proof.HashVerify(e.suite, "PairShuffle", refPairVerify(e, xb, yb, strategy, link), prf); err != nil {
+	if err := proof.HashVerify(e.suite, "PairShuffle", refPairVerify(e, xb, yb, strategy, link, link2), prf); err != nil {
 		fmt.Printf("HARNESS-ERROR: forged transcript (%s) is not one check away from acceptance: %v\n", ctx, err)
 		t.Fatalf("harness self-check failed: %v", err)
 	}
-	if err := proof.HashVerify(e.suite, "PairShuffle", refPairVerify(e, xb, yb, "", -1), prf); err == nil {
+	if err := proof.HashVerify(e.suite, "PairShuffle", refPairVerify(e, xb, yb, "", -1, -1), prf); err == nil {
 		fmt.Printf("HARNESS-ERROR: the reference verifier accepts the forged transcript (%s)\n", ctx)
 		t.Fatalf("harness self-check failed")
 	}
